@@ -4,6 +4,7 @@
 package main
 
 import (
+	"errors"
 	"time"
 
 	sdk "github.com/cosmos/cosmos-sdk/types"
@@ -216,6 +217,125 @@ func (c *caseT) feedsEndBlock() {
 		"grace": grace, "intervals": intervals, "vals": vals, "out": fx.M{"statuses": c.all()}, "err": errS})
 }
 
+// submitPrices: the real MsgSubmitSignalPrices handler on a re-ranked feed list, with a previous price list that may be
+// in another order and hold signals that are no longer current, a sender clock that differs from the block time, and
+// the cool-down around its boundary.  The stored list is read back.
+func (c *caseT) submitPrices() {
+	r := c.r
+	fk := c.app.FeedsKeeper
+	ms := feedskeeper.NewMsgServerImpl(fk)
+	p := fk.GetParams(c.ctx)
+	p.CooldownTime = int64(r.PickInt(1, 2, 5, 30))
+	p.AllowableBlockTimeDiscrepancy = int64(r.PickInt(1, 2, 10, 60))
+	fx.Must(fk.SetParams(c.ctx, p))
+	nowS := c.now / 1_000_000_000
+	height := c.ctx.BlockHeight()
+	all := []string{"CS:A", "CS:B", "CS:C", "CS:D"}
+	perm := r.Perm(len(all))
+	nf := r.Range(1, 4)
+	var feeds []feedstypes.Feed
+	var fids []string
+	for _, k := range perm[:nf] {
+		feeds = append(feeds, feedstypes.Feed{SignalID: all[k], Power: 1000, Interval: 60})
+		fids = append(fids, all[k])
+	}
+	fk.SetCurrentFeeds(c.ctx, feeds)
+	i := r.Intn(len(bandtesting.Validators))
+	if !r.Chance(1, 6) {
+		// mostly a validator that is required to send (oracle-active); sometimes any
+		for k := range bandtesting.Validators {
+			if c.status(k).IsActive {
+				i = k
+			}
+		}
+	}
+	val := bandtesting.Validators[i].ValAddress
+	// the previous list: any order, any subset, possibly a signal that is not current any more
+	var prev []feedstypes.ValidatorPrice
+	var prevJ [][]any
+	if !r.Chance(1, 5) {
+		for _, k := range r.Perm(len(all))[:r.Range(0, 4)] {
+			st := feedstypes.SignalPriceStatus(r.PickInt(0, 1, 2, 3, 3))
+			ts := nowS - p.CooldownTime + int64(r.Range(-2, 2))
+			if r.Chance(1, 3) {
+				ts = nowS - int64(r.Range(0, 100))
+			}
+			vp := feedstypes.ValidatorPrice{SignalPriceStatus: st, SignalID: all[k], Price: uint64(r.Range(1, 1000)), Timestamp: ts, BlockHeight: height - int64(r.Range(0, 30))}
+			prev = append(prev, vp)
+			prevJ = append(prevJ, []any{int(st), vp.SignalID, fx.U(vp.Price), vp.Timestamp, vp.BlockHeight})
+		}
+		fx.Must(fk.SetValidatorPriceList(c.ctx, val, prev))
+	} else {
+		c.ctx.KVStore(c.app.GetKey(feedstypes.StoreKey)).Delete(feedstypes.ValidatorPriceListStoreKey(val))
+	}
+	if prevJ == nil {
+		prevJ = [][]any{}
+	}
+	var sps []feedstypes.SignalPrice
+	msgJ := [][]any{}
+	nm := r.Range(0, nf)
+	if r.Chance(1, 8) {
+		nm = r.Range(0, 4)
+	}
+	mperm := append([]int{}, perm[:nf]...) // mostly current signals, sometimes one that is not
+	if r.Chance(1, 6) {
+		mperm = r.Perm(len(all))
+	}
+	if nm > len(mperm) {
+		nm = len(mperm)
+	}
+	for a, b := range r.Perm(len(mperm)) {
+		mperm[a], mperm[b] = mperm[b], mperm[a]
+	}
+	for _, k := range mperm[:nm] {
+		st := feedstypes.SignalPriceStatus(r.PickInt(1, 2, 3, 3, 3))
+		sp := feedstypes.SignalPrice{Status: st, SignalID: all[k], Price: uint64(r.Range(1, 1000))}
+		if st != feedstypes.SIGNAL_PRICE_STATUS_AVAILABLE {
+			sp.Price = 0
+		}
+		sps = append(sps, sp)
+		msgJ = append(msgJ, []any{sp.SignalID, int(st), fx.U(sp.Price)})
+	}
+	msgTs := nowS + int64(r.PickInt(0, 0, 1, -1, 45, -45)) + int64(r.PickInt(0, 0, int(p.AllowableBlockTimeDiscrepancy), -int(p.AllowableBlockTimeDiscrepancy), int(p.AllowableBlockTimeDiscrepancy)+1))
+	required := fk.ValidateValidatorRequiredToSend(c.ctx, val) == nil
+	msg := feedstypes.NewMsgSubmitSignalPrices(val.String(), msgTs, sps)
+	class := ""
+	errS := fx.Atomically(c.ctx, func(ctx sdk.Context) error {
+		{
+			_, err := ms.SubmitSignalPrices(ctx, msg)
+			switch {
+			case err == nil:
+			case errors.Is(err, feedstypes.ErrSignalPricesTooLarge):
+				class = "tooLarge"
+			case errors.Is(err, feedstypes.ErrNotBondedValidator), errors.Is(err, feedstypes.ErrOracleStatusNotActive):
+				class = "notRequired"
+			case errors.Is(err, feedstypes.ErrInvalidTimestamp):
+				class = "badTimestamp"
+			case errors.Is(err, feedstypes.ErrSignalIDNotSupported):
+				class = "notSupported"
+			case errors.Is(err, feedstypes.ErrPriceSubmitTooEarly):
+				class = "tooEarly"
+			default:
+				class = "other:" + err.Error()
+			}
+			return err
+		}
+	})
+	if errS != "" && class == "" {
+		class = errS // a panic
+	}
+	stored := [][]any{}
+	if l, err := fk.GetValidatorPriceList(c.ctx, val); err == nil {
+		for _, vp := range l.ValidatorPrices {
+			stored = append(stored, []any{int(vp.SignalPriceStatus), vp.SignalID, fx.U(vp.Price), vp.Timestamp, vp.BlockHeight})
+		}
+	}
+	c.tr.Tag("submit:" + class)
+	c.tr.Op(fx.M{"op": "submitPrices", "feeds": fids, "prev": prevJ, "msg": msgJ, "msgTs": msgTs, "now": nowS, "height": height,
+		"cooldown": p.CooldownTime, "disc": p.AllowableBlockTimeDiscrepancy, "required": required, "accepted": errS == "",
+		"out": fx.M{"err": class, "list": stored}})
+}
+
 func runCase(app *fx.App, tr *fx.Trace, r *fx.Rng) {
 	ctx, _ := app.Ctx.CacheContext()
 	c := &caseT{app: app, ctx: ctx, tr: tr, r: r}
@@ -236,6 +356,8 @@ func runCase(app *fx.App, tr *fx.Trace, r *fx.Rng) {
 			c.missReport(i)
 		case x < 8:
 			c.feedsEndBlock()
+		case x < 9 || r.Chance(1, 2):
+			c.submitPrices()
 		default:
 			c.pureCheckMiss()
 		}
